@@ -51,6 +51,46 @@ def check(repo: Repo, R) -> None:
         if r and ast.unparse(r[0]) in ("m", "inst.of"):
             s_is |= _cls_set(repo, fis, r[1])
     R.check(want <= s_is, rule, key_of(fis), fis.site, f"is_flat() regards {sorted(s_is - {'Module'})} as leaves", why="a module with external-module instances is reported not flat (or vice versa)")
+    # ... for *every* instance-like member: `all(<is a leaf> for each)`, or `not any(<is a Module> for each)`; over instances,
+    # arrays and instance bundles
+    marg = fis.node.args.args[0].arg
+    q_ok = False
+    q_detail = "no quantified return in the Module arm"
+    for r_ in shared.returns_of(fis.node):
+        if not any(pol and (au.isinstance_classes(t) or [None, []])[0] is not None and ast.unparse(au.isinstance_classes(t)[0]) == marg and "Module" in _cls_set(repo, fis, au.isinstance_classes(t)[1]) for t, pol in shared.path_conditions(fis.node, r_) if isinstance(t, ast.Call)):
+            continue
+        for v, _c in shared.alternatives(fis.node, r_.value, shared.path_conditions(fis.node, r_), at=r_):
+            neg = False
+            e = v
+            if isinstance(e, ast.UnaryOp) and isinstance(e.op, ast.Not):
+                neg, e = True, e.operand
+            if not (isinstance(e, ast.Call) and isinstance(e.func, ast.Name) and e.func.id in ("all", "any") and len(e.args) == 1 and isinstance(e.args[0], (ast.GeneratorExp, ast.ListComp))):
+                q_detail = f"the Module arm returns `{ast.unparse(v)[:80]}`"
+                continue
+            g = e.args[0]
+            pred = g.elt
+            pneg = False
+            if isinstance(pred, ast.UnaryOp) and isinstance(pred.op, ast.Not):
+                pneg, pred = True, pred.operand
+            rr = au.isinstance_classes(pred) if isinstance(pred, ast.Call) else None
+            if rr is None or not ast.unparse(rr[0]).endswith(".of"):
+                q_detail = f"the element test `{ast.unparse(g.elt)}` is not a kind test of the instance's target"
+                continue
+            kinds = _cls_set(repo, fis, rr[1])
+            leafish = kinds == want
+            modish = kinds == {"Module"}
+            # normal form: forall x. leaf(x)
+            form = None
+            if e.func.id == "all" and not neg and ((leafish and not pneg) or (modish and pneg)):
+                form = "all(leaf)"
+            if e.func.id == "any" and neg and ((modish and not pneg) or (leafish and pneg)):
+                form = "not any(module)"
+            it = shared.prov_text(fis.node, g.generators[0].iter)
+            views = all(f"{marg}.{a_}" in it for a_ in ("instances", "instarrays", "instbundles"))
+            q_ok = form is not None and views and len(g.generators) == 1 and not g.generators[0].ifs
+            q_detail = f"is_flat(Module) = `{ast.unparse(v)[:90]}` — every member of instances, instarrays and instbundles ({views}) is a leaf ({form})"
+    R.check(q_ok, rule, key_of(fis, "every-instance-is-a-leaf"), fis.site, q_detail,
+            why="a module that mixes leaf and Module instances is reported flat: flatten() hands back the hierarchy untouched")
     s_pi = set()
     for c in au.calls_in(fpi.node):
         r = au.isinstance_classes(c)
